@@ -391,12 +391,13 @@ class TrigTime:
                 #
                 State.set(__test_handshake__[0], __test_handshake__[1])
 
+            # "now" in a time specification means the moment the wait started, for the whole wait
+            startup_time = None
             while True:
                 ret = None
                 this_timeout = None
                 state_trig_timeout = False
                 time_next = None
-                startup_time = None
                 now = dt_now()
                 if startup_time is None:
                     startup_time = now
